@@ -535,6 +535,44 @@ func c13Run(t *testing.T, o *vOut, ca *vCA, sc c13Script) {
 	})
 }
 
+// The single-flight entry of a name is the SERVER NAME's, also when the certificate that serves
+// it is a wildcard's (whose own first name is another string): after the renewal attempt, however
+// it ends, both wait-channel maps are empty again and a later handshake can start the next attempt.
+func c13Wildcard(t *testing.T, o *vOut, ca *vCA) {
+	for _, state := range []string{"window", "expired"} {
+		synctest.Test(t, func(t *testing.T) {
+			st := vNewMem()
+			iss := vNewIssuer("vi", ca)
+			od := &OnDemandConfig{DecisionFunc: func(context.Context, string) error { return nil }}
+			cache, cfg := vNewCfg(st, []Issuer{iss}, func(cf *Config, co *CacheOptions) {
+				cf.OnDemand = od
+				co.RenewCheckInterval = 100000 * time.Hour
+				co.OCSPCheckInterval = 100000 * time.Hour
+			})
+			defer cache.Stop()
+			hsQuietMaintenance(cache)
+			const wild, host = "*.wild.c13.example", "www.wild.c13.example"
+			cur := hsMakeBundle(ca, wild, state, false)
+			hsStoreBundle(st, iss.IssuerKey(), wild, cur)
+			if _, err := cfg.CacheManagedCertificate(context.Background(), wild); err != nil {
+				t.Fatal(err)
+			}
+			for round := 0; round < 2; round++ {
+				cfg.GetCertificateWithContext(context.Background(), hsHello(host))
+				synctest.Wait()
+				time.Sleep(20 * time.Minute) // beyond every worker time-out
+				synctest.Wait()
+				if left := hsMapsLeft(); len(left) > 0 {
+					o.Mon("C13 wait-channel-maps-not-empty", map[string]any{"script": "wildcard-certificate " + state, "round": round, "left": left})
+					hsClearMaps()
+					break
+				}
+			}
+			o.Stat("wildcard_scenarios", 1)
+		})
+	}
+}
+
 func c13Scripts(thorough bool) []c13Script {
 	var out []c13Script
 	holds := []time.Duration{0, time.Second, 30 * time.Second, 119 * time.Second, 121 * time.Second, 150 * time.Second}
@@ -584,6 +622,7 @@ func TestVerifC13(t *testing.T) {
 	ca := vNewCA("c13")
 	rng := vRand()
 	scripts := c13Scripts(vThorough())
+	c13Wildcard(t, o, ca)
 	// seeded extra scripts
 	extra := 120
 	if vThorough() {
